@@ -84,7 +84,8 @@ def register(reg):
     sp = "result[k].star_power_data"
     sp_facts = f"forall(0, {n}, lambda k: {per_event('result', 'k', True, ('~none',))})"
     Lemma("C05-star-power-membership", vars, light + struct("each-event", "phrases-before-cursor-ended") + [ordered], [
-        ("carries-data-iff-some-phrase-covers", f"forall(0, {n}, lambda k: iff({sp} is not None, exists(0, len({spe}), lambda j: {covers('j', 'k')})))"),
+        ("carries-data-only-if-some-phrase-covers", f"forall(0, {n}, lambda k: implies({sp} is not None, 0 <= g_c[k] and g_c[k] < len({spe}) and {covers('g_c[k]', 'k')}))"),
+        ("carries-data-if-some-phrase-covers", f"forall(0, {n}, lambda k: forall(0, len({spe}), lambda j: implies({covers('j', 'k')}, {sp} is not None)))"),
         ("index-is-first-covering-phrase", f"forall(0, {n}, lambda k: implies({sp} is not None, 0 <= {sp}.star_power_event_index and {sp}.star_power_event_index < len({spe}) "
                                            f"and {covers(sp + '.star_power_event_index', 'k')} and forall(0, {sp}.star_power_event_index, lambda j: not {covers('j', 'k')})))"),
     ], ["C05"], uses=uses2, note="L5: needs the phrases ordered by start tick (the property's quantifier); the cursor is invisible")
